@@ -65,6 +65,10 @@ class StrRaises(Exception):
         raise RuntimeError("str() raises")
 
 
+class ExtractorBoom(Exception):
+    """What a failing exception extractor raises."""
+
+
 EXC_CLASSES = {
     "Exception": Exception,
     "ValueError": ValueError,
@@ -133,12 +137,13 @@ class MAction(object):
 class MMsg(object):
     kind = "msg"
 
-    def __init__(self, nid, mtype, fields, actor, tb=None):
+    def __init__(self, nid, mtype, fields, actor, tb=None, loose=False):
         self.nid = nid
         self.mtype = mtype
-        self.fields = fields
+        self.fields = fields        # for tracebacks: expected extractor fields (or None)
         self.actor = actor
         self.tb = tb                # for tracebacks: the exception object
+        self.loose = loose          # extractor fields on this traceback are not checked
         self.parent = None
 
     def __repr__(self):
@@ -327,6 +332,10 @@ class Interp(object):
             yield from self.x_spawn(op, env, pending)
         elif k == "_continue":
             yield from self.x_continue(op, env)
+        elif k == "reenter":
+            yield from self.x_reenter(op, env)
+        elif k == "plain_gen":
+            self.x_plain_gen(op, env)
         else:
             h = self.rc.custom_ops.get(k)
             if h is None:
@@ -373,7 +382,10 @@ class Interp(object):
         e = self.eliot
         nid = op["nid"]
         exc = make_exc(op["cls"], "tb nid=%d" % nid)
-        node = MMsg(nid, "eliot:traceback", None, self.rc.actor_name(), tb=exc)
+        self._extractor_failure(exc, env)
+        # an exception whose str() raises cannot carry the nid in its text
+        node = MMsg(None if exc_text(exc) == STR_PLACEHOLDER else nid, "eliot:traceback",
+                    self.rc.expected_extractor_fields(exc), self.rc.actor_name(), tb=exc)
         self.model.attach(node, env.top())
         try:
             raise exc
@@ -393,6 +405,124 @@ class Interp(object):
             node.succ[k2] = v
         flt = {k2: v for k2, v in op["fields"].items() if not (ser is not None and k2 in ser)}
         self.api(("succ", node.nid), obj.add_success_fields, **flt)
+
+    # ------------------------------------------------- re-entry, plain generators
+    def x_reenter(self, op, env):
+        """Enter context()/run() of the action that is already current."""
+        rc = self.rc
+        if not env.stack:
+            return
+        node, a = env.stack[-1]
+        rc.probe("reenter")
+        holder = Holder()
+        if op["how"] == "context":
+            cm = self.api(("ctx", node.nid), a.context)
+            self.api(("enter", node.nid), cm.__enter__)
+            env.stack.append((node, a))
+            try:
+                self.check_current(env, "enter:recontext")
+                yield from self.x_body(op["body"], env)
+            except (SimAbort, Unwind, Violation):
+                raise
+            except BaseException as ex:  # noqa
+                holder.inner = ex
+                env.stack.pop()
+                try:
+                    r = self.api_thru(("exit", node.nid), holder, cm.__exit__, type(ex), ex, ex.__traceback__)
+                except BaseException as ex2:  # noqa
+                    if ex2 is not ex:
+                        raise
+                    r = False
+                if r:
+                    rc.fail("swallowed", "context().__exit__ swallowed the exception")
+                    raise Unwind()
+                self.check_current(env, "exit:recontext")
+                raise
+            else:
+                env.stack.pop()
+                self.api(("exit", node.nid), cm.__exit__, None, None, None)
+        else:
+            def f():
+                env.stack.append((node, a))
+                try:
+                    self.check_current(env, "enter:rerun")
+                    drive_sync(self, self.x_body(op["body"], env))
+                except (SimAbort, Unwind, Violation):
+                    raise
+                except BaseException as ex:  # noqa
+                    holder.inner = ex
+                    raise
+                finally:
+                    env.stack.pop()
+                return holder
+            try:
+                r = self.api_thru(("run", node.nid), holder, a.run, f)
+            finally:
+                self.check_current(env, "exit:rerun")
+            if r is not holder:
+                rc.fail("run_result", "run() returned %r" % (r,))
+                raise Unwind()
+
+    def x_plain_gen(self, op, env):
+        """A plain (undecorated) generator that enters an action and yields
+        inside it; the driver does no scoping of its own while it is
+        suspended, then closes / exhausts / throws into it."""
+        e = self.eliot
+        rc = self.rc
+        nid = op["nid"]
+        node = MAction(nid, op["atype"], {"nid": nid}, rc.actor_name())
+        self.model.attach(node, env.top())
+        interp = self
+        rc.probe("plain_gen_" + op["how"])
+
+        def g():
+            a = interp.api(("start", nid), e.start_action, action_type=op["atype"], nid=nid)
+            node.obj = a
+            interp.api(("enter", nid), a.__enter__)
+            env.stack.append((node, a))
+            try:
+                for m in op["inside"]:
+                    interp.x_msg(m, env)
+                yield 1
+                for m in op["after"]:
+                    interp.x_msg(m, env)
+            except (SimAbort, Unwind, Violation):
+                raise
+            except BaseException as ex:  # noqa
+                env.stack.pop()
+                interp._model_fail(node, ex, env)
+                r = interp.api(("end", nid), a.__exit__, type(ex), ex, ex.__traceback__)
+                if r:
+                    rc.fail("swallowed", "__exit__ swallowed")
+                    raise Unwind()
+                raise
+            else:
+                env.stack.pop()
+                node.outcome = "succeeded"
+                interp.api(("end", nid), a.__exit__, None, None, None)
+
+        gen = g()
+        if next(gen) != 1:
+            raise _sched.HarnessError("generator protocol")
+        self.check_current(env, "gen-suspended")
+        for m in op["suspended"]:
+            self.x_msg(m, env)
+        how = op["how"]
+        if how == "close":
+            gen.close()
+        elif how == "exhaust":
+            try:
+                next(gen)
+            except StopIteration:
+                pass
+        else:
+            thrown = AppError("thrown nid=%d" % nid)
+            try:
+                gen.throw(thrown)
+            except AppError as got:
+                if got is not thrown:
+                    rc.fail("exception_replaced", "generator throw: %r came back instead" % (got,))
+                    raise Unwind()
 
     # -------------------------------------------------------------- actions
     def x_act(self, op, env):
@@ -450,7 +580,7 @@ class Interp(object):
             except BaseException as ex:  # noqa
                 holder.inner = ex
                 env.stack.pop()
-                self._model_fail(node, ex)
+                self._model_fail(node, ex, env)
                 r = self.api(("end", nid), a.__exit__, type(ex), ex, ex.__traceback__)
                 if r:
                     rc.fail("swallowed", "__exit__ returned %r: exception swallowed" % (r,))
@@ -528,7 +658,7 @@ class Interp(object):
                 if ex is not holder.inner:
                     rc.fail("exception_replaced", "scope exit raised %r instead of %r" % (ex, holder.inner))
                     raise Unwind()
-                self._model_fail(node, ex)
+                self._model_fail(node, ex, env)
                 self.api(("end", nid), a.finish, ex)
                 escaped = ex
             else:
@@ -550,10 +680,21 @@ class Interp(object):
             node.succ[k2] = f.serialize(v) if f is not None else v
         self.api(("succ", node.nid), a.add_success_fields, **typed_succ)
 
-    def _model_fail(self, node, ex):
+    def _model_fail(self, node, ex, env=None):
         node.outcome = "failed"
         node.exc = ex
         node.exc_fields = self.rc.expected_extractor_fields(ex)
+        if env is not None:
+            self._extractor_failure(ex, env)
+
+    def _extractor_failure(self, ex, env):
+        """A failing extractor is swallowed and its traceback logged in the
+        context current at that moment (model: one extra traceback message)."""
+        boom = self.rc.extractor_failure(ex)
+        if boom is not None:
+            self.rc.count_fault("extr_raise")
+            n = MMsg(None, "eliot:traceback", None, self.rc.actor_name(), tb=boom, loose=True)
+            self.model.attach(n, env.top())
 
     def _act_log_call(self, op, env, node, holder):
         e = self.eliot
@@ -608,7 +749,7 @@ class Interp(object):
             if ex is not holder.inner:
                 rc.fail("exception_replaced", "log_call raised %r instead of %r" % (ex, holder.inner))
                 raise Unwind()
-            self._model_fail(node, ex)
+            self._model_fail(node, ex, env)
             escaped = ex
         else:
             node.outcome = "succeeded"
@@ -747,7 +888,7 @@ class Interp(object):
             raise
         except BaseException as ex:  # noqa
             env.stack.pop()
-            self._model_fail(node, ex)
+            self._model_fail(node, ex, env)
             r = self.api(("end", node.nid), a.__exit__, type(ex), ex, ex.__traceback__)
             if r:
                 rc.fail("swallowed", "__exit__ swallowed")
